@@ -709,6 +709,9 @@ void mutex_unlock(MutexS &m) noexcept
   if (--m.depth > 0)
     return;
   release_mutex(m);
+  // second point after the release: what the task does next without the lock can be
+  // interleaved with the task that takes it
+  point(K_MUTEX_UNLOCK, m.id | 0x80000000u);
 }
 
 bool cv_wait(CvS &cv, MutexS &m, int64_t deadline_ns) noexcept
